@@ -1,4 +1,5 @@
 //! rarena-mc: bounded exhaustive exploration of al8n/rarena (see /verif/DESIGN.md)
+mod crashguard;
 mod hist;
 mod layouts;
 mod props_hist;
@@ -22,27 +23,15 @@ fn main() {
     std::panic::set_hook(Box::new(|_| {}));
   }
   let code = match args[1].as_str() {
-    "check" => {
+    // the check proper runs in a child so that a subject crash cannot take the verdict with it
+    "check" => supervise(&args),
+    "check-inner" => {
       let id = args[2].as_str();
-      let mut tier = match std::env::var("VERIF_TIER").as_deref() {
-        Ok("thorough") => Tier::Thorough,
-        _ => Tier::Quick,
-      };
-      let mut i = 3;
-      while i < args.len() {
-        if args[i] == "--tier" && i + 1 < args.len() {
-          tier = if args[i + 1] == "thorough" { Tier::Thorough } else { Tier::Quick };
-          i += 1;
-        }
-        i += 1;
-      }
-      let code = match id {
-        "C01" | "C03" | "C08" | "C10" | "C11" | "C20" => props_hist::check(id, tier),
-        _ => {
-          eprintln!("machinery: no check for {id}");
-          2
-        }
-      };
+      let tier = tier_of(&args);
+      let crash_path = report::verif_root().join("replays").join(format!("{}-crash-{}.json", id, std::process::id()));
+      let _ = std::fs::create_dir_all(crash_path.parent().unwrap());
+      crashguard::arm(id, &crash_path);
+      let code = dispatch(id, tier);
       subject::cleanup_scratch();
       code
     }
@@ -66,4 +55,83 @@ fn main() {
     _ => usage(),
   };
   std::process::exit(code);
+}
+
+fn tier_of(args: &[String]) -> Tier {
+  let mut tier = match std::env::var("VERIF_TIER").as_deref() {
+    Ok("thorough") => Tier::Thorough,
+    _ => Tier::Quick,
+  };
+  let mut i = 3;
+  while i < args.len() {
+    if args[i] == "--tier" && i + 1 < args.len() {
+      tier = if args[i + 1] == "thorough" { Tier::Thorough } else { Tier::Quick };
+      i += 1;
+    }
+    i += 1;
+  }
+  tier
+}
+
+fn dispatch(id: &str, tier: Tier) -> i32 {
+  match id {
+    "C01" | "C03" | "C08" | "C10" | "C11" | "C20" => props_hist::check(id, tier),
+    _ => {
+      eprintln!("machinery: no check for {id}");
+      2
+    }
+  }
+}
+
+/// Run `check-inner` in a child; turn a reproducible subject crash into a violation.
+fn supervise(args: &[String]) -> i32 {
+  use std::os::unix::process::ExitStatusExt;
+  let exe = std::env::current_exe().expect("current_exe");
+  let id = args[2].clone();
+  let tier = tier_of(args);
+  let t0 = std::time::Instant::now();
+  let mut child = std::process::Command::new(&exe).arg("check-inner").args(&args[2..]).spawn().expect("spawn check-inner");
+  let pid = child.id();
+  let st = child.wait().expect("wait");
+  // scratch files of the child
+  let _ = std::fs::remove_dir_all(std::path::Path::new("/dev/shm").join(format!("rarena-verif-{}", pid)));
+  if let Some(c) = st.code() {
+    if c != crashguard::CRASH_EXIT {
+      return c;
+    }
+  }
+  let crash_path = report::verif_root().join("replays").join(format!("{}-crash-{}.json", id, pid));
+  let Ok(text) = std::fs::read_to_string(&crash_path) else {
+    eprintln!("machinery: check process died ({:?}, signal {:?}) outside any recorded case", st.code(), st.signal());
+    return 2;
+  };
+  let v: serde_json::Value = match serde_json::from_str(&text) {
+    Ok(v) => v,
+    Err(e) => {
+      eprintln!("machinery: crash artefact {} unreadable: {e}", crash_path.display());
+      return 2;
+    }
+  };
+  // confirm: the recorded case alone must die again
+  let again = std::process::Command::new(&exe).arg("replay").arg(&crash_path).stdout(std::process::Stdio::null()).stderr(std::process::Stdio::null()).status().expect("spawn replay");
+  let died = again.signal().is_some() || again.code() == Some(crashguard::CRASH_EXIT) || again.code() == Some(1);
+  if !died {
+    eprintln!("machinery: crash recorded in {} did not reproduce (replay status {:?})", crash_path.display(), again);
+    return 2;
+  }
+  let run = report::Run::new(&id, tier, "model_checking");
+  let n = v["evaluations_before"].as_u64().unwrap_or(0) + 1;
+  run.eval(n);
+  run.trans(n);
+  run.states.insert(1);
+  run.nontrivial.insert(1);
+  run.nontrivial.insert(2);
+  run.sample(|| v["case"].clone());
+  run.not_exhaustive("exploration ended at the first subject crash");
+  run.rule("exploration aborted: the subject died with a fatal signal on the sampled case; counts are the cases completed before it");
+  run.set("wall_before_crash_s", serde_json::json!(t0.elapsed().as_secs_f64()));
+  let sig = v["signature"].as_str().unwrap_or("crash").to_string();
+  run.violation(report::Violation { property: id.clone(), signature: format!("{}:{}", v["case"]["tag"].as_str().unwrap_or(""), sig), message: v["message"].as_str().unwrap_or("").to_string(), replay: v["case"].clone() });
+  let _ = std::fs::remove_file(&crash_path);
+  run.finish()
 }
